@@ -69,6 +69,8 @@ let run inp obs : string option * string option =
        let want = model_select sels name in
        if want = o then (None, None)
        else (None, Some (Printf.sprintf "model of setRules/getRules predicts [%s], implementation returned [%s]" want o)))
+  | "C19M" :: _, ["config-modified"] ->
+    (Some "building a mux from two ServiceConfigOption values modified the configuration object it was handed: a later mux built from that configuration alone binds rules it was never given", None)
   | "C19M" :: rules :: methods :: rest, obs ->
     let own = (rest = ["own"]) in
     let rules = L.map (fun f -> match String.split_on_char '@' f with
